@@ -36,6 +36,9 @@ pub enum Val {
     Nan,
     /// anything outside the typed core that the engine produced (float, null, array, ...)
     X(String),
+    /// a whole-number LITERAL beyond the i64 range, by its decimal text (`10000000000000000000`,
+    /// `-9300000000000000000`): below / above every integer a field can hold, equal to none
+    Big(String),
 }
 
 pub type Fields = BTreeMap<String, Val>;
@@ -48,6 +51,7 @@ impl Val {
             Val::B(b) => json!(b),
             Val::Nan => json!({ "nan": true }),
             Val::X(s) => json!({ "other": s }),
+            Val::Big(s) => json!({ "whole_number_beyond_i64": s }),
         }
     }
     pub fn from_json(j: &Json) -> Option<Val> {
@@ -56,6 +60,7 @@ impl Val {
             Json::String(s) => Some(Val::S(s.clone())),
             Json::Bool(b) => Some(Val::B(*b)),
             Json::Object(o) if o.contains_key("nan") => Some(Val::Nan),
+            Json::Object(o) if o.contains_key("whole_number_beyond_i64") => o.get("whole_number_beyond_i64").and_then(|v| v.as_str()).map(|s| Val::Big(s.to_string())),
             Json::Object(o) => o.get("other").and_then(|v| v.as_str()).map(|s| Val::X(s.to_string())),
             _ => None,
         }
@@ -67,6 +72,7 @@ impl Val {
             Val::B(b) => b.to_string(),
             Val::Nan => "NaN".to_string(),
             Val::X(s) => s.clone(),
+            Val::Big(s) => s.clone(),
         }
     }
     pub fn to_fact_value(&self) -> FactValue {
@@ -76,6 +82,7 @@ impl Val {
             Val::B(b) => FactValue::Boolean(*b),
             Val::Nan => FactValue::Float(f64::NAN),
             Val::X(s) => FactValue::String(s.clone()),
+            Val::Big(s) => FactValue::Float(s.parse().unwrap_or(f64::NAN)),
         }
     }
     pub fn from_fact_value(v: &FactValue) -> Val {
@@ -280,6 +287,21 @@ pub fn eval(c: &Cond, f: &Fields) -> Tri {
                     Op::Ne => a != b,
                     _ => return Tri::Undefined,
                 },
+                // a literal beyond the i64 range: its sign decides every comparison with an integer
+                (Val::I(_), Val::Big(t)) => {
+                    let lit_is_above = !t.starts_with('-');
+                    match op {
+                        Op::Eq => false,
+                        Op::Ne => true,
+                        Op::Lt | Op::Le => lit_is_above,
+                        Op::Gt | Op::Ge => !lit_is_above,
+                        _ => return Tri::Undefined,
+                    }
+                }
+                (Val::Nan, Val::Big(_)) => match op {
+                    Op::Lt | Op::Le | Op::Gt | Op::Ge => false,
+                    _ => return Tri::Undefined,
+                },
                 // NaN in a numeric field: every ordering comparison is false; (in)equality is left open
                 (Val::Nan, Val::I(_)) => match op {
                     Op::Lt | Op::Le | Op::Gt | Op::Ge => false,
@@ -454,6 +476,13 @@ fn group_to_cond(g: &ConditionGroup, ty: &str) -> Option<Cond> {
                 Value::Integer(i) => Val::I(*i),
                 Value::String(s) => Val::S(s.clone()),
                 Value::Boolean(b) => Val::B(*b),
+                // a whole number beyond i64 comes back as the nearest double: recognised by value
+                Value::Number(x) if x.is_finite() && x.fract() == 0.0 && x.abs() >= 9.3e18 => {
+                    match BIG_LITERALS.iter().find(|t| t.parse::<f64>().ok() == Some(*x)) {
+                        Some(t) => Val::Big(t.to_string()),
+                        None => return None,
+                    }
+                }
                 _ => return None,
             };
             Some(Cond::Leaf { field: f.to_string(), op: Op::from_operator(&c.operator)?, lit })
@@ -574,7 +603,9 @@ pub const STR_FIELD: &str = "tag";
 pub const BOOL_FIELD: &str = "vip";
 pub const INT_DOMAIN: [i64; 8] = [-3, 0, 5, 10, 18, 25, 100, 7];
 /// integers that f64 cannot tell apart (2^53, 2^53 + 1) and the i64 edge: one pick in 14
-pub const BIG_INTS: [i64; 4] = [9_007_199_254_740_992, 9_007_199_254_740_993, i64::MAX - 1, -9_007_199_254_740_993];
+pub const BIG_INTS: [i64; 6] = [9_007_199_254_740_992, 9_007_199_254_740_993, i64::MAX - 1, -9_007_199_254_740_993, i64::MAX, i64::MIN];
+/// whole-number literals beyond the i64 range (the parser turns them into doubles)
+pub const BIG_LITERALS: [&str; 4] = ["10000000000000000000", "9300000000000000000", "-9300000000000000000", "-20000000000000000000"];
 pub fn pick_int(rng: &mut Rng) -> i64 {
     if rng.chance(1, 14) {
         *rng.pick(&BIG_INTS)
@@ -604,8 +635,11 @@ pub fn gen_leaf(rng: &mut Rng) -> Cond {
     match rng.below(4) {
         0 | 1 => {
             let field = rng.pick(&INT_FIELDS).to_string();
+            if rng.chance(1, 40) {
+                return Cond::Leaf { field, op: *rng.pick(&INT_OPS), lit: Val::Big(rng.pick(&BIG_LITERALS).to_string()) };
+            }
             let base = pick_int(rng);
-            let lit = base + rng.range(-1, 1);
+            let lit = base.saturating_add(rng.range(-1, 1));
             Cond::Leaf { field, op: *rng.pick(&INT_OPS), lit: Val::I(lit) }
         }
         2 => Cond::Leaf { field: STR_FIELD.into(), op: *rng.pick(&STR_OPS), lit: Val::S(rng.pick(&STR_DOMAIN).to_string()) },
